@@ -5,7 +5,8 @@ area=${1:-base}
 cd "$(dirname "$0")"
 b=_build_$area
 rm -rf $b; mkdir -p $b
-cp ../coq/model_$area.ml $b/model.ml; cp ../coq/model_$area.mli $b/model.mli
+c=${COQ_DIR:-../coq}
+cp $c/model_$area.ml $b/model.ml; cp $c/model_$area.mli $b/model.mli
 cp driver.ml main.ml $b/; cp h_$area.ml $b/handlers.ml
 cd $b
 ocamlfind ocamlopt -O3 -w -a model.mli model.ml driver.ml handlers.ml main.ml -o ../driver_$area.tmp 2>/dev/null || \
